@@ -418,6 +418,8 @@ static void run_nosilent(int which)
         c.ct = (ci % 3 == 0) ? CHKSUM_NONE : CHKSUM_CRC32;
         uint64_t lens[MAXSTR]; int kinds[MAXSTR];
         int nl = std_lengths(&c, lens, kinds, MAXSTR, 2);
+        /* plus the two degenerate objects: empty (payload size 0, the value sizes are divided by) and a single byte; one case in eight */
+        int ndeg = 0; if (nl == 2) { lens[nl] = 0; kinds[nl++] = DATA_RANDOM; lens[nl] = 1; kinds[nl++] = DATA_FF; ndeg = 2; }
         ctx_t x;
         if (ctx_open(&x, &c, lens, kinds, nl) == 0) {
             int n = cfg_n(&c);
@@ -450,6 +452,7 @@ static void run_nosilent(int which)
             for (int e = 0; e < np; e++) {
                 uint32_t present = pm[e];
                 int si = e % x.nstr;
+                if (ndeg && x.nstr == 4) si = e % 8 == 7 ? 2 + ((e / 8) & 1) : e % 2;
                 int p = (e % 11 == 6) ? 6 : (e % 5 == 4) ? 4 : ((e % 7 == 3) ? 3 : (e % 3 == 1 ? 2 : 0));
                 char em[128]; mask_str(full & ~present, n, em, sizeof em);
                 int miss = n - __builtin_popcount(present);
